@@ -100,6 +100,12 @@ def run_env(name, tier, seed):
         tb = traceback.format_exc()
         for p in generic.PROPS:
             kit.res[p].fail("generic harness raised on %s" % name, dict(env=name, op="harness-exception"), dict(trace=tb[-1500:]))
+    from harness import modes
+    try:
+        modes.analyze(kit)
+    except Exception:
+        tb = traceback.format_exc()
+        kit.res["C02"].fail("mode harness raised on %s" % name, dict(env=name, op="harness-exception"), dict(trace=tb[-1500:]))
     from harness import wrapkit
     try:
         wrapkit.analyze(kit)
